@@ -41,7 +41,7 @@ var samplesitesCmd = &cobra.Command{
 		}
 
 		al := <-aligns.Achan
-		if aligns.Err != nil {
+		if al == nil {
 			err = aligns.Err
 			io.LogError(err)
 			return
